@@ -46,3 +46,15 @@ package gateway
 //@   modifies nothing
 //@   loop 0 invariant[within_the_label] 0 <= i && i <= len(dnsLabel) && len(result) <= i
 //@   ensures[never_longer_than_the_label] len(fqdn) <= len(dnsLabel)
+
+// ---- C32: the redirect keeps remainder, query and fragment of the request ---------------------------
+// The remainder is the already decoded tail of the request path and goes into the URL's (decoded) Path
+// as it is - url.URL.String() escapes it once; query and fragment are copied in their raw form.
+//@ func toSubdomainURL
+//@   prop C32
+//@   arith int-assumed
+//@   requires r != nil && r.URL != nil
+//@   modifies all
+//@   site[query_preserved] store:RawQuery : arg0 == r.URL.RawQuery
+//@   site[fragment_preserved] store:RawFragment : arg0 == r.URL.RawFragment
+//@   site[remainder_preserved_as_decoded] store:Path : arg0 == rest
